@@ -184,7 +184,9 @@ func (c *Connection) dispatchInbound(_ uint32, _ uint32, call *InboundCall, fram
 			LogField{"remotePeer", c.remotePeerInfo},
 			ErrField(err),
 		).Error("Couldn't read method.")
-		c.opts.FramePool.Release(frame)
+		// The initial frame is owned by its fragment, which may already have
+		// released it while reading; release through the fragment (idempotent).
+		call.releasePreviousFragment()
 		return
 	}
 
